@@ -179,6 +179,38 @@ func bloomMayMatch(f, t, ft *bloom.BloomFilter, e *bs.BloomExpression) bool {
 	return false
 }
 
+// regexGuardMayMatch: README "derives a field-existence bloom guard for
+// earlier file/block pruning" — a row can only satisfy FieldRegex(f, p) if the
+// path f exists in it, so a field filter without f rules the condition out. An
+// absent filter, a nil condition and an empty field name cannot rule out.
+func regexGuardMayMatch(f *bloom.BloomFilter, e *bs.RegexExpression) bool {
+	if e == nil {
+		return true
+	}
+	switch e.ExpressionType {
+	case bs.RegexExpressionCondition:
+		if e.Condition == nil || e.Condition.Field == "" {
+			return true
+		}
+		return f == nil || f.TestString(e.Condition.Field)
+	case bs.RegexExpressionOr:
+		for i := range e.Children {
+			if regexGuardMayMatch(f, &e.Children[i]) {
+				return true
+			}
+		}
+		return false
+	case bs.RegexExpressionAnd:
+		for i := range e.Children {
+			if !regexGuardMayMatch(f, &e.Children[i]) {
+				return false
+			}
+		}
+		return true
+	}
+	return true
+}
+
 func overlaps(a0, a1, b0, b1 int64) bool { return a0 < b1 && b0 < a1 }
 
 func judgeC24(sr *SearchRun) *Violation {
@@ -214,6 +246,7 @@ func judgeC24(sr *SearchRun) *Violation {
 		}
 		q := run.Spec.Query()
 		var bexpr *bs.BloomExpression
+		var rexpr *bs.RegexExpression
 		var pre *bs.QueryPrefilter
 		noConditions := true
 		if q != nil {
@@ -224,6 +257,7 @@ func judgeC24(sr *SearchRun) *Violation {
 			}
 			if q.Regex != nil && q.Regex.Expression != nil {
 				noConditions = false
+				rexpr = q.Regex.Expression
 			}
 		}
 		opened := map[string]bool{}
@@ -239,7 +273,7 @@ func judgeC24(sr *SearchRun) *Violation {
 		prunedFiles, prunedBlocks := 0, 0
 		for _, f := range sr.Files {
 			x := ff[f.Ptr]
-			fileOut := !bloomMayMatch(x.file.FieldBloomFilter, x.file.TokenBloomFilter, x.file.FieldTokenBloomFilter, bexpr)
+			fileOut := !bloomMayMatch(x.file.FieldBloomFilter, x.file.TokenBloomFilter, x.file.FieldTokenBloomFilter, bexpr) || !regexGuardMayMatch(x.file.FieldBloomFilter, rexpr)
 			if fileOut {
 				prunedFiles++
 				if opened[f.Ptr] {
@@ -268,7 +302,7 @@ func judgeC24(sr *SearchRun) *Violation {
 				meta := b.Meta
 				preOut := !bs.EvaluateDataBlockMetadata(&meta, pre)
 				bf := x.blocks[bi]
-				bloomOut := !bloomMayMatch(bf.FieldBloomFilter, bf.TokenBloomFilter, bf.FieldTokenBloomFilter, bexpr)
+				bloomOut := !bloomMayMatch(bf.FieldBloomFilter, bf.TokenBloomFilter, bf.FieldTokenBloomFilter, bexpr) || !regexGuardMayMatch(bf.FieldBloomFilter, rexpr)
 				if !(preOut || bloomOut || fileOut) {
 					continue
 				}
@@ -309,8 +343,8 @@ func TestC23(t *testing.T) {
 }
 
 func TestC24(t *testing.T) {
-	Ev.Rule = "generated histories + queries (same space as C01) with every DataStore call of the query recorded by the harness's store wrapper. Expected pruning is recomputed from the REAL filter bits read through ReadFileMetadata / ReadDataBlockBloomFilters (absent filter = cannot rule out) for the bloom expression, and from EvaluateDataBlockMetadata for the prefilter: no OpenFile of a file whose file-level filters rule the bloom expression out; no read overlapping the row data of a ruled-out block; no read inside the filter region when bloom and regex expressions are both nil; every read inside a declared extent (a block's row data or the filter region). Non-trivial: >=1 file and further blocks ruled out; distinct by hash(query, layout, counts)."
-	Ev.Assumptions = []string{"pruning the engine additionally derives from the regex field guard is allowed but not demanded", "chunk reads may cover sections of pruned blocks as long as they stay inside the region (documented slack)"}
+	Ev.Rule = "generated histories + queries (same space as C01) with every DataStore call of the query recorded by the harness's store wrapper. Expected pruning is recomputed from the REAL filter bits read through ReadFileMetadata / ReadDataBlockBloomFilters (absent filter = cannot rule out) for the bloom expression AND the field-existence guard of the regex expression, and from EvaluateDataBlockMetadata for the prefilter: no OpenFile of a file whose file-level filters rule the bloom expression out; no read overlapping the row data of a ruled-out block; no read inside the filter region when bloom and regex expressions are both nil; every read inside a declared extent (a block's row data or the filter region). Non-trivial: >=1 file and further blocks ruled out; distinct by hash(query, layout, counts)."
+	Ev.Assumptions = []string{"the regex field-existence guard (documented in the README) is part of the expectation; an empty field name or nil condition cannot rule anything out", "chunk reads may cover sections of pruned blocks as long as they stay inside the region (documented slack)"}
 	runChecks(t, "search", 250, 8000, genSearchCase(searchOpts, 10, true), runSearchProperty(judgeC24))
 	runChecks(t, "merged", 100, 4000, genSearchCase(mergeHeavyOpts, 10, true), runSearchProperty(judgeC24))
 	bigFilterPhase(t, judgeC24)
